@@ -1,6 +1,6 @@
 (* C07 -- the NPC global p-value is an exact rank p-value: never zero, exactly valid.
    Statements only; proofs in Proofs/NpcProofs.v, Lib/RankValid.v. *)
-From PV Require Import Lib.Base Model.Npc Proofs.NpcProofs.
+From PV Require Import Lib.Base Model.Npc Proofs.NpcProofs Proofs.LiptakProofs.
 Open Scope Q_scope.
 
 (* with plus1=False each row's partial p-value in a column is #{rows at least as large}/B *)
@@ -18,6 +18,14 @@ Theorem C07_sim_npc_never_zero : forall (obs : list Q) (sims : list (list Q)) (c
   sim_npc_table (obs :: sims) c = Ok (p, ps) -> 1 / (qn (length sims) + 1) <= p.
 Proof. exact sim_npc_counts_itself. Qed.
 Print Assumptions C07_sim_npc_never_zero.
+
+(* ... and for Liptak as well, as soon as the quantile table is increasing (norm.ppf is): the observed row's clipped
+   partial p-values are <= the observed p-values, so its combined statistic is >= the observed one *)
+Theorem C07_sim_npc_never_zero_liptak : forall (obs : list Q) (sims : list (list Q)) tab p ps,
+  (forall x y, x <= y -> lookup tab x <= lookup tab y) ->
+  sim_npc_table (obs :: sims) (Liptak tab) = Ok (p, ps) -> 1 / (qn (length sims) + 1) <= p.
+Proof. exact sim_npc_counts_itself_liptak. Qed.
+Print Assumptions C07_sim_npc_never_zero_liptak.
 
 (* exact finite-sample validity: whatever the matrix, the combiner and the ties, among the B rows' combined
    statistics at most k have at most k rows at least as large -- i.e. at most k rows would obtain a global
